@@ -44,15 +44,63 @@ func (w *World) implObligations(prop string) (obls []*Obligation, funcs []string
 		}
 		sort.Strings(ckeys)
 		for _, ck := range ckeys {
-			o := w.implPair(ifi, ifc, w.Funcs[ck], w.CS.Funcs[ck])
+			o := w.implPair(ifi, ifc, w.Funcs[ck], w.CS.Funcs[ck], nil, nil)
 			obls = append(obls, o...)
 			funcs = append(funcs, ck+" implements "+ik)
+		}
+		// promoted methods: a named struct type T of the module that implements the interface through a method of an
+		// embedded struct field (T.collection.Valid for *MultiPoint): same obligations with self = the embedded sub-object.
+		var pnames []string
+		ptypes := map[string]*types.Named{}
+		for _, pk := range w.Pkgs {
+			sc := pk.Types.Scope()
+			for _, nm := range sc.Names() {
+				tn, ok := sc.Lookup(nm).(*types.TypeName)
+				if !ok || tn.IsAlias() {
+					continue
+				}
+				named, ok := tn.Type().(*types.Named)
+				if !ok {
+					continue
+				}
+				if _, isStruct := named.Underlying().(*types.Struct); !isStruct {
+					continue
+				}
+				pnames = append(pnames, pk.PkgPath+"."+nm)
+				ptypes[pk.PkgPath+"."+nm] = named
+			}
+		}
+		sort.Strings(pnames)
+		for _, pn := range pnames {
+			named := ptypes[pn]
+			pt := types.NewPointer(named)
+			if !types.Implements(pt, it) {
+				continue
+			}
+			sel := types.NewMethodSet(pt).Lookup(ifi.Obj.Pkg(), ifi.Obj.Name())
+			if sel == nil {
+				sel = types.NewMethodSet(pt).Lookup(named.Obj().Pkg(), ifi.Obj.Name())
+			}
+			if sel == nil || len(sel.Index()) < 2 {
+				continue
+			}
+			m, ok := sel.Obj().(*types.Func)
+			if !ok {
+				continue
+			}
+			cfi := w.ByObj[m]
+			if cfi == nil || cfi.Decl == nil || w.CS.Funcs[cfi.Key] == nil {
+				continue
+			}
+			o := w.implPair(ifi, ifc, cfi, w.CS.Funcs[cfi.Key], pt, sel.Index()[:len(sel.Index())-1])
+			obls = append(obls, o...)
+			funcs = append(funcs, cfi.Key+" (promoted to "+named.Obj().Name()+") implements "+ik)
 		}
 	}
 	return
 }
 
-func (w *World) implPair(ifi *FuncInfo, ifc *FuncContract, cfi *FuncInfo, cfc *FuncContract) (obls []*Obligation) {
+func (w *World) implPair(ifi *FuncInfo, ifc *FuncContract, cfi *FuncInfo, cfc *FuncContract, outer types.Type, path []int) (obls []*Obligation) {
 	w.fresh = 0
 	bvCounter = 100000
 	ex := &Exec{w: w, arith: "order", assumedCalls: map[string]bool{}, fi: cfi, fc: cfc}
@@ -61,16 +109,39 @@ func (w *World) implPair(ifi *FuncInfo, ifc *FuncContract, cfi *FuncInfo, cfc *F
 	}
 	defer func() {
 		if r := recover(); r != nil {
-			o := &Obligation{Name: cfi.Key + "#impl." + ifi.Key, Kind: "impl", Func: cfi.Key, Guard: tTrue, Goal: tFalse, ex: ex, Props: ifc.Props}
+			o := &Obligation{Name: cfi.Key + "#impl." + ifi.Key + promotedSuffix(outer), Kind: "impl", Func: cfi.Key, Guard: tTrue, Goal: tFalse, ex: ex, Props: ifc.Props}
 			o.Static = fmt.Sprint("cannot build subtyping obligation: ", r)
 			obls = append(obls, o)
 		}
 	}()
 	rt := cfi.Recv.Type()
+	oname := cfi.Key
 	// receiver as concrete value and as interface value
 	var selfI, selfC *Val
+	subFact := tTrue
 	rs := w.sortOf(rt)
-	if rs.Eq(SRef) {
+	if outer != nil {
+		// promoted method: the interface value holds the outer object, the method receives the embedded sub-object
+		named := namedOf(outer)
+		oname = cfi.Key + "@" + named.Obj().Name()
+		r := ex.fresh("self", SRef)
+		selfI = tv(r, ifi.Sig.Recv().Type())
+		cur := r
+		ct := types.Type(named)
+		for _, idx := range path {
+			on := namedOf(ct)
+			f := on.Underlying().(*types.Struct).Field(idx)
+			if !w.isRefStruct(f.Type()) {
+				panic("promotion through a non-struct embedded field is not supported")
+			}
+			cur = subRefTerm(cur, on, f)
+			ct = f.Type()
+		}
+		selfC = tv(cur, rt)
+		rt = outer
+		rs = SRef
+		subFact = tAnd(tNot(tEq(cur, intLit(0))), ex.ptrTypeFact(cur, cfi.Recv.Type()))
+	} else if rs.Eq(SRef) {
 		r := ex.fresh("self", SRef)
 		selfC = tv(r, rt)
 		selfI = tv(r, ifi.Sig.Recv().Type())
@@ -84,6 +155,7 @@ func (w *World) implPair(ifi *FuncInfo, ifc *FuncContract, cfi *FuncInfo, cfc *F
 	if !rs.Eq(SRef) {
 		guard = tAnd(guard, tEq(mk("unbox_"+mangle(rs.String()), rs, selfI.T), selfC.T))
 	}
+	guard = tAnd(guard, subFact)
 	irn, ipns := paramNames(ifi)
 	crn, cpns := paramNames(cfi)
 	inames := map[string]*Val{irn: selfI, "self": selfI}
@@ -113,6 +185,18 @@ func (w *World) implPair(ifi *FuncInfo, ifc *FuncContract, cfi *FuncInfo, cfc *F
 	ienv := &SpecEnv{names: inames, pkg: ipkg, w: w}
 	cenv := &SpecEnv{names: cnames, pkg: cpkg, w: w}
 	ienv.old, cenv.old = ienv, cenv
+	if ifc.Iter != nil || cfc.Iter != nil {
+		// protocol ghosts: the same final `seen` / `stopped` for both contracts; initially nothing seen, not stopped
+		setS := arraySort(SInt, SBool)
+		seen := tv(ex.fresh("seen", setS), nil)
+		stopped := tv(ex.fresh("stopped", SBool), nil)
+		empty := tv(&Term{Op: "(as const " + setS.String() + ")", Args: []*Term{tFalse}, S: setS}, nil)
+		ienv = ienv.with(map[string]*Val{"seen": seen, "stopped": stopped})
+		cenv = cenv.with(map[string]*Val{"seen": seen, "stopped": stopped})
+		ienv.old = ienv.with(map[string]*Val{"seen": empty, "stopped": tv(tFalse, nil)})
+		cenv.old = cenv.with(map[string]*Val{"seen": empty, "stopped": tv(tFalse, nil)})
+		ienv.old.old, cenv.old.old = ienv.old, cenv.old
+	}
 	var ireq, creq, iens, cens []*Term
 	for _, c := range ifc.Requires {
 		ireq = append(ireq, w.trSpec(c.E, ienv).T)
@@ -124,7 +208,7 @@ func (w *World) implPair(ifi *FuncInfo, ifc *FuncContract, cfi *FuncInfo, cfc *F
 		cens = append(cens, w.trSpec(c.E, cenv).T)
 	}
 	mkO := func(name string, g, goal *Term, src string) {
-		obls = append(obls, &Obligation{Name: cfi.Key + "#impl." + name, Kind: "impl", Func: cfi.Key, Guard: g, Goal: goal, NDecl: len(ex.decls), Unfold: 1, Props: ifc.Props, Src: src, ex: ex})
+		obls = append(obls, &Obligation{Name: oname + "#impl." + name, Kind: "impl", Func: cfi.Key, Guard: g, Goal: goal, NDecl: len(ex.decls), Unfold: 2, Props: ifc.Props, Src: src, ex: ex})
 	}
 	base := tAnd(guard, tAnd(ireq...))
 	for i, c := range cfc.Requires {
@@ -136,7 +220,7 @@ func (w *World) implPair(ifi *FuncInfo, ifc *FuncContract, cfi *FuncInfo, cfc *F
 	}
 	if ifc.Iter != nil {
 		if cfc.Iter == nil {
-			o := &Obligation{Name: cfi.Key + "#impl.iter", Kind: "impl", Func: cfi.Key, Guard: tTrue, Goal: tFalse, ex: ex, Props: ifc.Props, Static: "implementer has no iteration protocol"}
+			o := &Obligation{Name: oname + "#impl.iter", Kind: "impl", Func: cfi.Key, Guard: tTrue, Goal: tFalse, ex: ex, Props: ifc.Props, Static: "implementer has no iteration protocol"}
 			obls = append(obls, o)
 			return
 		}
@@ -156,4 +240,11 @@ func (w *World) implPair(ifi *FuncInfo, ifc *FuncContract, cfi *FuncInfo, cfc *F
 		}
 	}
 	return
+}
+
+func promotedSuffix(outer types.Type) string {
+	if outer == nil {
+		return ""
+	}
+	return "@" + namedOf(outer).Obj().Name()
 }
